@@ -37,14 +37,18 @@ type Stats struct {
 	Findings    []Finding
 	DistinctOut map[string]bool
 	// DistinctTraces: different event orders actually executed (a guard against vacuous exploration)
-	DistinctTraces map[string]bool
+	DistinctTraces map[uint64]bool // FNV-1a of the event order
 }
 
 // Explore runs all schedules of the scenario up to the preemption bound (iteratively 0..bound).
 func Explore(sc Scenario, bound, maxSchedules int, heartbeat func()) *Stats {
-	st := &Stats{Bound: bound, Complete: true, DistinctOut: map[string]bool{}, DistinctTraces: map[string]bool{}}
+	st := &Stats{Bound: bound, Complete: true, DistinctOut: map[string]bool{}, DistinctTraces: map[uint64]bool{}}
 	seenKeys := map[string]bool{}
+	stop := false // a decisive finding ends the exploration of this scenario (the remaining schedules cannot change the verdict)
 	add := func(f Finding) {
+		if f.Kind != "race" && f.Kind != "nondeterministic" {
+			stop = true
+		}
 		if !seenKeys[f.Key] {
 			seenKeys[f.Key] = true
 			st.Findings = append(st.Findings, f)
@@ -66,7 +70,7 @@ func Explore(sc Scenario, bound, maxSchedules int, heartbeat func()) *Stats {
 				heartbeat()
 			}
 		}
-		st.DistinctTraces[strings.Join(x.Trace, ";")] = true
+		st.DistinctTraces[traceHash(x.Trace)] = true
 		choices := make([]int, len(x.Points))
 		for i, p := range x.Points {
 			choices[i] = p.Chosen
@@ -104,7 +108,7 @@ func Explore(sc Scenario, bound, maxSchedules int, heartbeat func()) *Stats {
 	// determinism: the default schedule twice
 	a := runOne(nil)
 	b := runOne(nil)
-	if strings.Join(a.Trace, ";") != strings.Join(b.Trace, ";") {
+	if traceHash(a.Trace) != traceHash(b.Trace) {
 		add(Finding{Kind: "nondeterministic", Key: "harness:nondeterministic:" + sc.Name, Desc: "the default schedule produced two different event traces: " + tail(a.Trace) + " VS " + tail(b.Trace)})
 		st.Complete = false
 		return st
@@ -124,7 +128,7 @@ func Explore(sc Scenario, bound, maxSchedules int, heartbeat func()) *Stats {
 				continue
 			}
 			for alt := 1; alt < len(p.Enabled); alt++ {
-				if st.Schedules >= maxSchedules {
+				if st.Schedules >= maxSchedules || stop {
 					st.Complete = false
 					return
 				}
@@ -154,4 +158,15 @@ func tail(tr []string) string {
 		tr = tr[len(tr)-14:]
 	}
 	return strings.Join(tr, " ; ")
+}
+
+func traceHash(tr []string) uint64 {
+	h := uint64(14695981039346656037)
+	for _, e := range tr {
+		for i := 0; i < len(e); i++ {
+			h = (h ^ uint64(e[i])) * 1099511628211
+		}
+		h = (h ^ ';') * 1099511628211
+	}
+	return h
 }
